@@ -178,8 +178,18 @@ def write_replay(pid, v, tier):
     return path
 
 
+def evidence_dir():
+    # a run pointed at a scratch copy of the repository (QLASSKIT_SRC, used to try seeded changes) must not
+    # overwrite the evidence of /repo itself
+    if os.environ.get("VERIF_EVIDENCE_DIR"):
+        return os.environ["VERIF_EVIDENCE_DIR"]
+    if os.environ.get("QLASSKIT_SRC"):
+        return os.path.join(os.environ.get("TMPDIR", "/tmp"), "verif_scratch_evidence")
+    return os.path.join(VERIF, "evidence")
+
+
 def write_evidence(pid, ev):
-    d = os.path.join(VERIF, "evidence")
+    d = evidence_dir()
     os.makedirs(d, exist_ok=True)
     tmp = os.path.join(d, pid + ".json.tmp")
     with open(tmp, "w") as f:
@@ -197,7 +207,7 @@ def main(modname, tier, collect=None):
     seed = int(os.environ.get("VERIF_SEED", "0") or 0)
     # stale evidence must never survive a failed run
     try:
-        os.remove(os.path.join(VERIF, "evidence", pid + ".json"))
+        os.remove(os.path.join(evidence_dir(), pid + ".json"))
     except OSError:
         pass
 
